@@ -442,6 +442,9 @@ bool varintBitmapContains(const varintBitmap *vb, uint16_t value) {
 varintBitmap *varintBitmapAnd(const varintBitmap *vb1,
                               const varintBitmap *vb2) {
     varintBitmap *result = varintBitmapCreate();
+    if (!result) {
+        return NULL; /* Out of memory */
+    }
 
     /* Optimize: AND with array containers */
     if (vb1->type == VARINT_BITMAP_ARRAY && vb2->type == VARINT_BITMAP_ARRAY) {
@@ -481,6 +484,9 @@ varintBitmap *varintBitmapAnd(const varintBitmap *vb1,
 
 varintBitmap *varintBitmapOr(const varintBitmap *vb1, const varintBitmap *vb2) {
     varintBitmap *result = varintBitmapClone(vb1);
+    if (!result) {
+        return NULL; /* Out of memory */
+    }
 
     varintBitmapIterator it = varintBitmapCreateIterator(vb2);
     while (varintBitmapIteratorNext(&it)) {
@@ -493,6 +499,9 @@ varintBitmap *varintBitmapOr(const varintBitmap *vb1, const varintBitmap *vb2) {
 varintBitmap *varintBitmapXor(const varintBitmap *vb1,
                               const varintBitmap *vb2) {
     varintBitmap *result = varintBitmapCreate();
+    if (!result) {
+        return NULL; /* Out of memory */
+    }
 
     /* Add elements from vb1 that are not in vb2 */
     varintBitmapIterator it1 = varintBitmapCreateIterator(vb1);
@@ -516,6 +525,9 @@ varintBitmap *varintBitmapXor(const varintBitmap *vb1,
 varintBitmap *varintBitmapAndNot(const varintBitmap *vb1,
                                  const varintBitmap *vb2) {
     varintBitmap *result = varintBitmapCreate();
+    if (!result) {
+        return NULL; /* Out of memory */
+    }
 
     varintBitmapIterator it = varintBitmapCreateIterator(vb1);
     while (varintBitmapIteratorNext(&it)) {
